@@ -150,16 +150,16 @@ is the selection of the ORIGINAL `s1` by membership in the ORIGINAL `s2`, in ord
 of `s1` end as a permutation of what they were and every other arena cell is unchanged (so
 the part of `s2` outside `s1` keeps its values, the part inside is permuted with `s1`).
 An implementation that consults the live `s2` during the loop does not satisfy this. -/
-theorem c14_inplace_arena (A : List Int) (s1 s2 : Win) (p : Int → Bool) (key : Int → Int)
+theorem c14_inplace_arena (E : ElemEq) (A : List Int) (s1 s2 : Win) (p : Int → Bool) (key : Int → Int)
     (h : s1.off + s1.len ≤ A.length) :
-    (∃ A' res, diffInPlaceA A s1 s2 = some (A', res) ∧
-      ArenaIpOk ((s1.read A).filter fun v => !(s2.read A).contains v) A s1 A' res) ∧
-    (∃ A' res, intersectInPlaceA A s1 s2 = some (A', res) ∧
-      ArenaIpOk ((s1.read A).filter fun v => (s2.read A).contains v) A s1 A' res) ∧
-    (∃ A' res, uniqueByKeyInPlaceA key A s1 = some (A', res) ∧
-      ArenaIpOk (firstOcc key [] (s1.read A)) A s1 A' res) ∧
+    (∃ A' res, diffInPlaceA E A s1 s2 = some (A', res) ∧
+      ArenaIpOk ((s1.read A).filter fun v => !memE E (s2.read A) v) A s1 A' res) ∧
+    (∃ A' res, intersectInPlaceA E A s1 s2 = some (A', res) ∧
+      ArenaIpOk ((s1.read A).filter fun v => memE E (s2.read A) v) A s1 A' res) ∧
+    (∃ A' res, uniqueByKeyInPlaceA E key A s1 = some (A', res) ∧
+      ArenaIpOk (firstOccE E key [] (s1.read A)) A s1 A' res) ∧
     (∃ A' res, filterInPlaceA p A s1 = some (A', res) ∧ ArenaIpOk ((s1.read A).filter p) A s1 A' res) :=
-  ⟨diffInPlaceA_spec A s1 s2 h, intersectInPlaceA_spec A s1 s2 h, uniqueByKeyInPlaceA_spec key A s1 h,
+  ⟨diffInPlaceA_spec E A s1 s2 h, intersectInPlaceA_spec E A s1 s2 h, uniqueByKeyInPlaceA_spec E key A s1 h,
    filterInPlaceA_spec p A s1 h⟩
 
 /-- **dst-style functions on ONE arena.**  `dst`, `s1`, `s2` are windows of the same memory.
@@ -170,17 +170,17 @@ runs into it), or lies entirely behind `s1` — and wherever `s2` lies, also ove
 of the ORIGINAL `s1` in order (`ArenaDstOk.result`), never panic, and write only cells inside
 `[dst.off, dst.off + cap(dst))` (`FrameW`); with `dst = nil` the arena is not written at all and the
 result is memory of its own, nil exactly when nothing was selected. -/
-theorem c14_dst_arena (A : List Int) (dst : Option Win) (s1 s2 : Win) (p : Int → Bool) (key : Int → Int)
+theorem c14_dst_arena (E : ElemEq) (A : List Int) (dst : Option Win) (s1 s2 : Win) (p : Int → Bool) (key : Int → Int)
     (hs1 : s1.off + s1.len ≤ A.length)
     (hd : ∀ w, dst = some w → w.off + w.cap ≤ A.length ∧ (w.off ≤ s1.off ∨ s1.off + s1.len ≤ w.off)) :
-    (∃ A' res, diffA A dst s1 s2 = some (A', res) ∧
-      ArenaDstOk ((s1.read A).filter fun v => !(s2.read A).contains v) A dst A' res) ∧
-    (∃ A' res, intersectA A dst s1 s2 = some (A', res) ∧
-      ArenaDstOk ((s1.read A).filter fun v => (s2.read A).contains v) A dst A' res) ∧
-    (∃ A' res, uniqueByKeyA key A dst s1 = some (A', res) ∧
-      ArenaDstOk (firstOcc key [] (s1.read A)) A dst A' res) ∧
+    (∃ A' res, diffA E A dst s1 s2 = some (A', res) ∧
+      ArenaDstOk ((s1.read A).filter fun v => !memE E (s2.read A) v) A dst A' res) ∧
+    (∃ A' res, intersectA E A dst s1 s2 = some (A', res) ∧
+      ArenaDstOk ((s1.read A).filter fun v => memE E (s2.read A) v) A dst A' res) ∧
+    (∃ A' res, uniqueByKeyA E key A dst s1 = some (A', res) ∧
+      ArenaDstOk (firstOccE E key [] (s1.read A)) A dst A' res) ∧
     (∃ A' res, filterA p A dst s1 = some (A', res) ∧ ArenaDstOk ((s1.read A).filter p) A dst A' res) :=
-  ⟨diffA_spec A dst s1 s2 hs1 hd, intersectA_spec A dst s1 s2 hs1 hd, uniqueByKeyA_spec key A dst s1 hs1 hd,
+  ⟨diffA_spec E A dst s1 s2 hs1 hd, intersectA_spec E A dst s1 s2 hs1 hd, uniqueByKeyA_spec E key A dst s1 hs1 hd,
    filterA_spec p A dst s1 hs1 hd⟩
 
 /-- **The boundary of that claim is sharp**: in the remaining layouts — `dst` starting strictly
@@ -190,9 +190,9 @@ theorem c14_dst_arena_boundary :
     -- Filter keeping everything, s1 = [1 2 3], dst = arena[1:1:3]: the definition says [1 2 3]
     filterA (fun _ => true) [1, 2, 3] (some ⟨1, 0, 2⟩) ⟨0, 3, 3⟩ = some ([1, 1, 1], .fresh [1, 1, 1] false) ∧
     -- Unique, s1 = [1 2 1 3], dst = arena[1:1:4]: the definition says [1 2 3]
-    uniqueByKeyA id [1, 2, 1, 3] (some ⟨1, 0, 3⟩) ⟨0, 4, 4⟩ = some ([1, 1, 3, 3], .win 1 2) ∧
+    uniqueByKeyA intEq id [1, 2, 1, 3] (some ⟨1, 0, 3⟩) ⟨0, 4, 4⟩ = some ([1, 1, 3, 3], .win 1 2) ∧
     -- Diff, s1 = [1 2 3], s2 = [9], dst = arena[2:2:3]: the definition says [1 2 3]
-    diffA [1, 2, 3, 9] (some ⟨2, 0, 1⟩) ⟨0, 3, 3⟩ ⟨3, 1, 1⟩ = some ([1, 2, 1, 9], .fresh [1, 2, 1] false) := by
+    diffA intEq [1, 2, 3, 9] (some ⟨2, 0, 1⟩) ⟨0, 3, 3⟩ ⟨3, 1, 1⟩ = some ([1, 2, 1, 9], .fresh [1, 2, 1] false) := by
   decide
 
 /-- `Values` with arena windows as arguments: the result is `make`d memory of its own holding
@@ -206,6 +206,23 @@ arena cell — in particular no cell of the source's spare capacity — is writt
 theorem c14_copy_arena (A : List Int) (s : Win) (a len : Int) :
     ∃ res, copyA A s a len = some (A, res) ∧ ∃ xs n, res = .fresh xs n :=
   copyA_spec A s a len
+
+/-- **What element equality is.**  Every arena theorem above is for an arbitrary `E : ElemEq` — the
+`==` of the element (or key) type — with NO reflexivity, symmetry or transitivity assumed:
+membership in the map built from `s2` is "`==` to some inserted key" (`memE`), `Unique` keeps
+`v` iff no earlier kept key is `==` to it (`firstOccE`).  For `float64` (`floatEq`) this means: a
+NaN is never found in `s2` (Diff keeps it, Intersect drops it), `Unique` keeps EVERY NaN
+(Go map semantics: each NaN key is a new entry), `-0` and `+0` are one key (the first
+representation survives).  For `int` (`intEq`) the statements are the old ones (`memE_int`,
+`firstOccE_int`).  `Equal` is exactly "same length and element-wise `==`": it does not depend
+on where its arguments live, `Equal(s, s)` is true iff every element is `==` to itself — so it
+is FALSE for a slice holding a NaN compared with itself (the theorems that need reflexivity are
+only the `int` ones: `c14_equal`'s `decide (s1 = s2)`).  `Index` never finds a NaN. -/
+theorem c14_elem_eq (E : ElemEq) (s1 s2 s : List Int) (key : Int → Int) (seen l : List Int) (m : List Int) (v : Int) :
+    equalE E s1 s2 = some (decide (s1.length = s2.length) && (s1.zip s2).all fun p => E.eq p.1 p.2) ∧
+    equalE E s s = some (s.all fun x => E.eq x x) ∧
+    memE intEq m v = m.contains v ∧ firstOccE intEq key seen l = firstOcc key seen l :=
+  ⟨equalE_spec E s1 s2, equalE_self E s, memE_int m v, firstOccE_int key seen l⟩
 
 /-- **FlexSlice refines a plain list**: every sequence of Append/Prepend/Get/Remove/Pop/
 Shift/SubSlice, from every state with any amount of spare capacity (`len ≤ cap`), under
@@ -264,11 +281,18 @@ example : chunk 5 2 = some (some [(0, 2), (2, 2), (4, 1)]) := by decide
 example : subSlice 3 (-1) 9 = some (.view 0 3) ∧ subSlice 3 2 1 = some .nil ∧ copy [1, 2, 3] 1 (-1) = some (.fresh [2, 3]) := by
   decide
 /-- a dst window in FRONT of s1 whose capacity runs into it, s2 overlapping dst: still the definition -/
-example : intersectA [9, 9, 1, 2, 1, 3] (some ⟨1, 0, 4⟩) ⟨2, 4, 4⟩ ⟨2, 1, 1⟩ = some ([9, 1, 1, 2, 1, 3], .win 1 2) := by
+example : intersectA intEq [9, 9, 1, 2, 1, 3] (some ⟨1, 0, 4⟩) ⟨2, 4, 4⟩ ⟨2, 1, 1⟩ = some ([9, 1, 1, 2, 1, 3], .win 1 2) := by
   decide
+/-- float64 elements (1000000 = NaN, 1000001 = -0): `Equal(s, s)` is false with a NaN inside, `Index` does not
+find a NaN, `Unique` keeps both NaNs but only the first of +0 / -0, `Diff` keeps a NaN that "is" in s2 -/
+example : equalE floatEq [1, nanCode] [1, nanCode] = some false ∧ indexE floatEq [nanCode, 2] nanCode = -1 ∧
+    uniqueByKeyA floatEq id [nanCode, 0, nanCode, negZeroCode, 0] none ⟨0, 5, 5⟩ =
+      some ([nanCode, 0, nanCode, negZeroCode, 0], .fresh [nanCode, 0, nanCode] false) ∧
+    diffA floatEq [nanCode, 3, nanCode, 3] none ⟨0, 2, 2⟩ ⟨2, 2, 2⟩ =
+      some ([nanCode, 3, nanCode, 3], .fresh [nanCode] false) := by decide
 /-- the layout of seeded change C14-E: `s2 = s1[1:2]` inside `s1 = [3 7 5 7]`: both 7s are kept -/
-example : intersectInPlaceA [3, 7, 5, 7] ⟨0, 4, 4⟩ ⟨1, 1, 1⟩ = some ([7, 7, 5, 3], .win 0 2) := by decide
-example : diffInPlaceA [9, 3, 7, 5, 7, 9] ⟨1, 4, 4⟩ ⟨2, 2, 2⟩ = some ([9, 3, 7, 5, 7, 9], .win 1 1) := by decide
+example : intersectInPlaceA intEq [3, 7, 5, 7] ⟨0, 4, 4⟩ ⟨1, 1, 1⟩ = some ([7, 7, 5, 3], .win 0 2) := by decide
+example : diffInPlaceA intEq [9, 3, 7, 5, 7, 9] ⟨1, 4, 4⟩ ⟨2, 2, 2⟩ = some ([9, 3, 7, 5, 7, 9], .win 1 1) := by decide
 /-- a FlexSlice history crossing growth (cap 2 → 4 → 9 → 18), an in-capacity Prepend and a shrink (18 → 8) -/
 example : (flexRun goGrow (mkFlex [] 2)
     [.append [1, 2, 3], .prepend [4], .prepend [5, 6, 7, 8, 9], .append [10], .shift, .shift, .shift, .shift, .shift,
